@@ -20,6 +20,7 @@ package interpreter
 
 import (
 	"fmt"
+	"math/big"
 
 	"github.com/onflow/cadence/common"
 	"github.com/onflow/cadence/common/orderedmap"
@@ -206,27 +207,29 @@ func InclusiveRangeContains(
 	end := getFieldAsIntegerValue(context, rangeValue, sema.InclusiveRangeTypeEndFieldName)
 	step := getFieldAsIntegerValue(context, rangeValue, sema.InclusiveRangeTypeStepFieldName)
 
-	result := start.Equal(context, needleValue) ||
-		end.Equal(context, needleValue)
-
-	if result {
+	if start.Equal(context, needleValue) {
 		return TrueValue
 	}
 
-	// Exclusive check since we already checked for boundaries above.
-	if !isNeedleBetweenStartEndExclusive(context, needleValue, start, end) {
+	var result bool
+
+	// The needle must be between start (exclusive, already checked above) and end (inclusive).
+	// NOTE: the end value is only part of the sequence if it is reached by the step.
+	if !end.Equal(context, needleValue) &&
+		!isNeedleBetweenStartEndExclusive(context, needleValue, start, end) {
+
 		result = false
 	} else {
 		// needle is in between start and end.
 		// start + k * step should be equal to needle i.e. (needle - start) mod step == 0.
-		diff, ok := needleValue.Minus(context, start).(IntegerValue)
-		if !ok {
-			panic(errors.NewUnreachableError())
-		}
-
-		zeroValue := GetSmallIntegerValue(0, rangeType.ElementType)
-		mod := diff.Mod(context, step)
-		result = mod.Equal(context, zeroValue)
+		//
+		// Use unbounded integers: the difference of needle and start might not fit the element type.
+		diff := new(big.Int).Sub(
+			ConvertInt(context, needleValue).BigInt,
+			ConvertInt(context, start).BigInt,
+		)
+		mod := diff.Rem(diff, ConvertInt(context, step).BigInt)
+		result = mod.Sign() == 0
 	}
 
 	return BoolValue(result)
